@@ -3,7 +3,9 @@ import Aiorpcx.C11.Model
 /-! Line-protocol driver for the C11/C12 model.
     in : `<fixed 0|1> <cancelAt|-> <prog in prefix form>`
          prog ::= skip | sleep n | raise K | seq p p | block ig rel t p | try k K.. p p
-    out: `<res> t=<now> dl=<#deadlines> armed=<0|1> deliv=<0|1> | d:res:expired:t ...` -/
+                | group k d1 r1 .. dk rk p | groupany k d1 r1 .. dk rk p
+    out: `<res> t=<now> dl=<#deadlines> armed=<0|1> deliv=<0|1> | d:res:expired:t ...`
+         (a group exit is printed as `g:res:left:t`) -/
 open Aiorpcx Aiorpcx.C11
 
 def excOf : String → Exc
@@ -12,6 +14,10 @@ def excStr : Exc → String
   | .cancelled => "C" | .taskTimeout => "T" | .tce => "X" | .uncaught => "U" | .other => "O"
 def resStr : Option Exc → String
   | none => "ok" | some e => excStr e
+
+def pairs : List Nat → List (Nat × Nat)
+  | a :: b :: r => (a, b) :: pairs r
+  | _ => []
 
 /-- prefix-form parser; `fuel` bounds the recursion (the line length suffices) -/
 def parse : Nat → List String → Option (Prog × List String)
@@ -33,6 +39,18 @@ def parse : Nat → List String → Option (Prog × List String)
       let (b, r1) ← parse f (r.drop n)
       let (h, r2) ← parse f r1
       pure (.tryCatch b cs h, r2)
+  | f + 1, "group" :: k :: r => do
+      let n ← k.toNat?
+      let nums ← (r.take (2 * n)).mapM String.toNat?
+      if nums.length ≠ 2 * n then none
+      let (b, r1) ← parse f (r.drop (2 * n))
+      pure (.group false (pairs nums) b, r1)
+  | f + 1, "groupany" :: k :: r => do
+      let n ← k.toNat?
+      let nums ← (r.take (2 * n)).mapM String.toNat?
+      if nums.length ≠ 2 * n then none
+      let (b, r1) ← parse f (r.drop (2 * n))
+      pure (.group true (pairs nums) b, r1)
   | _, _ => none
 
 def handle (line : String) : String :=
@@ -43,7 +61,8 @@ def handle (line : String) : String :=
       let s : TS := { cancelAt := c }
       let (r, s', evs) := run (fixed == "1") p s
       let evStr := evs.map (fun e => match e with
-        | .exit d r ex t => s!"{d}:{resStr r}:{if ex then 1 else 0}:{t}")
+        | .exit d r ex t => s!"{d}:{resStr r}:{if ex then 1 else 0}:{t}"
+        | .gexit r left t => s!"g:{resStr r}:{left}:{t}")
       s!"{resStr r} t={s'.now} dl={s'.deadlines.length} armed={if s'.armed.isSome then 1 else 0} deliv={if c.isSome && s'.cancelAt.isNone then 1 else 0} | {String.intercalate " " evStr}"
     | _, _ => "bad-op"
   | _ => "bad-op"
